@@ -296,6 +296,8 @@ func collectUnionArities(env *dsl.Environment) []int {
 							}
 							self.Visit(tc.OldType())
 						}
+						// removed fields are still read and written by the compatibility serializers
+						self.Visit(change.PreviousDefinition())
 					case *dsl.NamedTypeChange:
 						if tc := change.TypeChange; tc != nil {
 							self.Visit(tc.OldType())
